@@ -61,11 +61,22 @@ def gen_cases(tier, seed):
         for _ in range(150 if thorough else 40):
             t = [rnd.choice(TT) for _ in range(3)]
             cases.append(dict(k=k, ta=t[0], ra=[], tb=t[1], rb=[], tc=t[2], rc=[], pt=rnd.choice(TT), dt=rnd.choice(TT), dr=[]))
+    # tiny rotations (0.5 deg ... 0.001 deg) as RIGHT operand of a composition: q = (2n, 0, 0, n^2 - 1) / (n^2 + 1); the composition is linear in
+    # that quaternion, so the large denominator fits TLC's integers (anything that rotates a vector with it would not)
+    for n in (100, 500, 2000, 20000):
+        for ax in range(3):
+            for sg in (1, -1):
+                q = [0, 0, 0, n * n - 1, n * n + 1]
+                q[ax] = sg * 2 * n
+                for _ in range(3 if thorough else 1):
+                    cases.append(dict(k='SE3', ta=rnd.choice(T3), ra=rnd.choice(hz), tb=rnd.choice(T3), rb=tuple(q), tc=[0, 0, 0], rc=B.QIdent if hasattr(B, 'QIdent') else (0, 0, 0, 1, 1),
+                                      pt=[0, 0, 0], dt=[0, 0, 0], dr=(0, 0, 0, 1), lite=True))
     NQ = [(1, 2, 2, 4), (2, 3, 6, 0), (0, 0, -3, -4), (-1, -2, -2, -4), (2, -4, 5, -6), (0, 0, 0, -3), (3, 0, 0, 0), (1, 1, 1, 1), (-1, 1, -1, -1), (4, -4, 7, 0), (0, 5, 0, -12)]
     for c in cases:
         c['nq'] = list(rnd.choice(NQ)) if c['k'] == 'SE3' else []
         # the group laws use an operand twice (a a^-1, b (a-b)): beyond TLC's 32-bit headroom for the 401/101 families
         c['laws'] = all((not c[k]) or c[k][-1] <= 13 for k in ('ra', 'rb', 'rc'))
+        c.setdefault('lite', False)
     return cases
 
 
